@@ -25,6 +25,9 @@ pub enum TOp {
     FindIter(u8),
     /// take k items of a memchr iterator, then hand it to the next thread
     HandOff(u8, u8, u8),
+    /// the one-shot free functions with a per-call needle (a prefix of the program's needle) on a
+    /// haystack cut to below or above the 64-byte one-shot threshold: (haystack, needle length selector, cut selector, reverse?)
+    OneShot(u8, u8, u8, u8),
 }
 
 #[derive(Clone, Debug, PartialEq)]
@@ -57,6 +60,7 @@ impl Program {
                     TOp::Rfind(h) => format!("rfind:{}", h),
                     TOp::FindIter(h) => format!("finditer:{}", h),
                     TOp::HandOff(a, h, k) => format!("handoff:{}:{}:{}", a, h, k),
+                    TOp::OneShot(h, n, c, r) => format!("oneshot:{}:{}:{}:{}", h, n, c, r),
                 });
             }
             s.push('\n');
@@ -88,6 +92,7 @@ impl Program {
                             "rfind" => TOp::Rfind(a(1)?),
                             "finditer" => TOp::FindIter(a(1)?),
                             "handoff" => TOp::HandOff(a(1)?, a(2)?, a(3)?),
+                            "oneshot" => TOp::OneShot(a(1)?, a(2)?, a(3)?, a(4)?),
                             _ => return None,
                         });
                     }
@@ -128,6 +133,16 @@ fn sequential(p: &Program, finder: &Finder<'_>, rfinder: &FinderRev<'_>, op: &TO
         TOp::Rfind(i) => vec![enc(rfinder.rfind(h(*i)))],
         TOp::FindIter(i) => finder.find_iter(h(*i)).map(|x| x as i64).collect(),
         TOp::HandOff(a, i, _) => memchr::memchr_iter(*a, h(*i)).map(|x| x as i64).collect(),
+        TOp::OneShot(i, nsel, csel, rev) => {
+            let full = h(*i);
+            let hay = if csel % 2 == 1 { full } else { &full[..full.len().min(20 + (*csel as usize) % 44)] };
+            let needle: &[u8] = if p.needle.is_empty() { &p.needle } else { &p.needle[..1 + (*nsel as usize) % p.needle.len()] };
+            match rev % 3 {
+                0 => vec![enc(memchr::memmem::find(hay, needle))],
+                1 => vec![enc(memchr::memmem::rfind(hay, needle))],
+                _ => memchr::memmem::find_iter(hay, needle).take(hay.len() + 2).map(|x| x as i64).collect(),
+            }
+        }
     }
 }
 
